@@ -271,6 +271,8 @@ func runRC(p *Plan, keep bool, mode string) *Outcome {
 			ms(p.Client.ReadTimeoutMS), codec, e.Dial, discard)
 		root, stop := context.WithCancel(context.Background())
 		garbageAt := -1
+		var garbageConn *Conn
+		var garbageT time.Duration
 		for _, f := range p.Faults {
 			ff := *f
 			switch ff.Act {
@@ -305,8 +307,19 @@ func runRC(p *Plan, keep bool, mode string) *Outcome {
 						garbageAt = -1
 						e.Stats.FaultKinds["garbage-frame"]++
 						cn.Death = append(cn.Death, "undecodable frame sent")
-						// valid length prefix, body that is not a delimited header
-						return []byte{0, 0, 0, 6, 0xff, 0xff, 0xff, 0xff, 0xff, 0x01}
+						garbageConn, garbageT = cn, e.Now()
+						switch (p.Seed / 32) % 3 {
+						case 0:
+							// valid length prefix, body that is not a delimited header
+							return []byte{0, 0, 0, 6, 0xff, 0xff, 0xff, 0xff, 0xff, 0x01}
+						case 1:
+							// a delimited header whose bytes are not a protobuf (a field
+							// tag without its value)
+							return []byte{0, 0, 0, 2, 0x01, 0x08}
+						default:
+							// the header's delimiter promises more bytes than the frame has
+							return []byte{0, 0, 0, 2, 0x05, 0x08}
+						}
 					}
 					return resp
 				}
@@ -393,6 +406,15 @@ func runRC(p *Plan, keep bool, mode string) *Outcome {
 		// ---- oracle ----
 		add := func(oracle, format string, a ...any) {
 			out.Violations = append(out.Violations, Violation{Prop: "C03", Oracle: oracle, Msg: fmt.Sprintf(format, a...), Step: e.Step, FakeNS: int64(e.Now())})
+		}
+		if cn := garbageConn; cn != nil && (!cn.IsClosed() || cn.ClosedAt > garbageT) {
+			// no time passes in these runs while something can still be delivered
+			// or run: the frame has been read, and the stream is unusable
+			closed := "it is still open"
+			if cn.IsClosed() {
+				closed = fmt.Sprintf("it was closed only at %v", cn.ClosedAt)
+			}
+			add("undecodable-frame-tolerated", "an undecodable response frame was delivered on connection #%d at %v and did not fail the connection: %s (read timeout %d ms)", cn.N, garbageT, closed, p.Client.ReadTimeoutMS)
 		}
 		for _, v := range c.Viol {
 			prop := "C03"
